@@ -69,7 +69,8 @@ def prune(n: Node, strict: bool = False) -> list:
         except UnknownNodeError as ex:
             logger.debug(f"Pruning: {n.name}")
             pruned.append((n, str(ex)))
-            if n.parent is not None:
+            # a detached node keeps its old parent link: only a parent that still lists it can drop it
+            if n.parent is not None and n in n.parent.children:
                 n.parent.remove_child(n)
             Node.delete_node_instance(n.id)
             return pruned
